@@ -110,6 +110,11 @@ partial def loop (h : IO.FS.Stream) (d : DS) : IO Unit := do
   let line ← h.getLine
   if line.isEmpty then return ()
   let ws := line.trimAscii.toString.splitOn " "
+  -- a UDP listener case with a short session timeout (9th field, ms): the sessions of the model never expire, the
+  -- histories keep every remote active (gaps below the timeout; `wait … late` ends the comparison)
+  let ws := match ws with
+    | ["C", a, b, c, d', e, f, g', t] => if f == "udp" && c == "def" && t.toNat! > 0 then ["C", a, b, c, d', e, f, g'] else ["bad"]
+    | _ => ws
   let say (d : DS) (what : String) : IO Unit := do
     let (l, d) := showSt d what
     IO.println l
@@ -212,6 +217,8 @@ partial def loop (h : IO.FS.Stream) (d : DS) : IO Unit := do
           let (l, d) := showSt d "spin"
           IO.println l
           loop h { d with dead := true }
+    | ["wait", _, "ok"] => say d "wait"
+    | ["wait", _, "late"] => IO.println "R late"; loop h { d with dead := true }
     | ["backlog", _] =>
       -- the read path does not depend on the write side: only the registration changes (and with it, in the code, the
       -- interest set — which must still ask for EPOLLRDHUP: the reports of this model assume it)
